@@ -904,6 +904,11 @@ func checkCongruence(a qframe.QFrame, opIdx int) *core.Failure {
 					return f
 				}
 			}
+			// ... and the two results are Equal: which of the tied rows comes first is not specified, but it is a
+			// function of the frame's rows, not of how they are stored ("yields Equal results under every operation")
+			if eq, why := x.Equals(y); !eq {
+				return core.Failf("%s: both results are ordered by the keys, but the result on the frame and the result on its Equal twin are not Equal (%s): the order of tied rows depends on the physical layout\n frame:  %s\n result: %s\n twin's: %s", op.name, why, oa, model.Observe(x), model.Observe(y))
+			}
 			continue
 		}
 		if strings.HasPrefix(op.name, "Distinct") {
@@ -1035,8 +1040,15 @@ func c09Run(ctx *core.Ctx) {
 				}
 				a, b := fam[i], fam[j]
 				c := obsCase{Init: init, Path: a.path, Which: whichOf(i), Pair: true, Init2: init, Path2: b.path, Which2: whichOf(j)}
-				ctx.Exec(c, func() *core.Failure { return checkEqualsPair(a.qf, b.qf) })
-				if eq, _ := a.qf.Equals(b.qf); eq {
+				eq := false
+				ctx.Exec(c, func() *core.Failure {
+					f := checkEqualsPair(a.qf, b.qf)
+					if f == nil {
+						eq, _ = a.qf.Equals(b.qf)
+					}
+					return f
+				})
+				if eq {
 					ctx.Outcome("equals/true")
 					if i != j {
 						ctx.Nontrivial(fmt.Sprintf("eqpair/%d/%d/%d", init, i, j))
